@@ -455,6 +455,9 @@ loop:
 	return obs
 }
 
+// c07ExtraBlocks lengthens the generated chain (used by C08's slow-consumer cases).
+var c07ExtraBlocks = 0
+
 // c07GenScenario builds a consensus-consistent history: one canonical chain with short-lived forks.
 func c07GenScenario(r *Rng, in *c07Input) {
 	in.Bundle = uint64([]int{2, 3, 5, 5}[r.Intn(4)])
@@ -462,7 +465,7 @@ func c07GenScenario(r *Rng, in *c07Input) {
 	id := uint64(100)
 	newID := func() uint64 { id += uint64(1 + r.Intn(3)); return id }
 	in.Root = fkBlock{ID: newID(), Num: base, Parent: newID(), Lib: base}
-	n := 55 + r.Intn(30)
+	n := 55 + r.Intn(30) + c07ExtraBlocks
 	lag := 2 + r.Intn(3)
 	// canonical chain
 	canon := []fkBlock{in.Root}
